@@ -1,4 +1,5 @@
 import Proofs.KernelArr
+import Proofs.LeftMat
 import Proofs.Ring
 import Proofs.Graded
 import Proofs.Compl
@@ -26,6 +27,13 @@ theorem sparse_kernel_is_contraction [DecidableEq R] (dims : Nat) (es : List Ent
 
 theorem kernel_output_size (dims : Nat) (es : List Entry) (a b : Array R) : (multDense dims es a b).size = dims :=
   KernelArr.size_multDense dims es a b
+
+/-- `get_left_gmt_matrix(x) @ b` is the table contraction of `x` and `b` (so `= (x*b).value`), for any entry list whose column
+    indices are inside the matrix; likewise `get_right_gmt_matrix(x) @ b = (b*x).value` -/
+theorem left_matrix_is_contraction (dims : Nat) (es : List Entry) (x b : Array R) (j : Nat) (hj : j < dims) (hm : ∀ e ∈ es, e.m < dims) :
+    (mulVec (leftMat dims es x) b).getD j 0 = contraction es x b j := KernelArr.leftMat_mulVec dims es x b j hj hm
+theorem right_matrix_is_contraction (dims : Nat) (es : List Entry) (x b : Array R) (j : Nat) (hj : j < dims) (hk : ∀ e ∈ es, e.k < dims) :
+    (mulVec (rightMat dims es x) b).getD j 0 = contraction es b x j := KernelArr.rightMat_mulVec dims es x b j hj hk
 
 /-- the order of the COO entries is irrelevant -/
 theorem contraction_entry_order {es es' : List Entry} (h : es.Perm es') (a b : Array R) (j : Nat) :
